@@ -229,6 +229,35 @@ fn cases() -> Vec<Case> {
             });
         }
     }
+    // ... on ONE instance, as a subscriber holds it: a damaged or truncated stream, then a short honest one
+    for (pi, (pname, _, _)) in pairs().into_iter().enumerate().filter(|(_, p)| p.0.ends_with("(default)") || p.0 == "lz4") {
+        for variant in 0..3usize {
+            out.push(Case {
+                name: format!("{pname}: one decompressor instance is given a damaged stream (variant {variant}), then a short good one"),
+                props: "C14 C06 C03",
+                run: Box::new(move || {
+                    let (_, mk, dk) = pairs().swap_remove(pi);
+                    let big = payloads().swap_remove(3).1; // 1000 pseudo-random bytes
+                    let mut c = mk().compress(Bytes::from(big)).map_err(|e| format!("{e:?}"))?.to_vec();
+                    let n = c.len();
+                    match variant {
+                        0 => c[n * 3 / 5] ^= 0x5a,
+                        1 => c.truncate(n * 3 / 5),
+                        _ => c[n - 3] ^= 0xff,
+                    }
+                    let one = dk();
+                    let _ = one.decompress(Bytes::from(c));
+                    let good = b"hi".to_vec();
+                    let c2 = mk().compress(Bytes::from(good.clone())).map_err(|e| format!("{e:?}"))?;
+                    let d = one.decompress(c2).map_err(|e| format!("good stream refused by an instance that had seen a damaged one: {e:?}"))?;
+                    if d[..] != good[..] {
+                        return Err(format!("an instance that had seen a damaged stream returned {} bytes for the 2 put in", d.len()));
+                    }
+                    Ok(())
+                }),
+            });
+        }
+    }
     // the same for frames no selium compressor would produce: an lz4 frame of several 64 KiB blocks that fails after its first
     // blocks were decoded, or whose content checksum is wrong, followed by an honest frame
     for variant in 0..3usize {
